@@ -14,6 +14,18 @@ CLAIMS = {
         design="5/C12"),
 }
 
+CLAIMS["C20"] = dict(
+    technique="Lean 4 proof over a model whose null/quote tests are translated from the Go source on every run; complete kernel-decided era table for the calendar arithmetic; differential validation of the parser/format model against the real libraries",
+    text="Kernel-checked for every byte string / instant: null(b) holds exactly for the bytes `null` (re-proved against the regenerated source text), only null leaves the field unset, every non-string token is rejected, a string token is accepted exactly when the ISO 8601 parser accepts its content, no panic on well-formed tokens; for every instant the UTC wall clock printed by Format is a valid date and denotes the same instant when read back (civil arithmetic proved via a completely decided 146097-day table). The digit-level step parse(format t) is kernel-evaluated on instances and diffed on generated instants (roundtrip_partial).",
+    note=BASE_NOTE + "Modelled, not verified: Go's time package and relvacode/iso8601 v1.6.0 (byte-level model diffed against the real libraries on every run). Known finding: the third-party parser is lenient (open: iso8601-lenient). S1 (&& instead of ||) repaired by fix commit ea428f5.",
+    design="5/C20")
+
+CLAIMS["C18"] = dict(
+    technique="Lean 4: complete kernel-decided table checks over registries regenerated from the Go source by reflection + go/ast, lifted to the quantified statements by generic lemmas; every table fact replayed on the real code",
+    text="The quantifier is a finite set enumerated completely: T1 regenerates, on every run, feature/profile tables, name agreement, constructor profile lists, both roles' send allow-lists, receive switches, typed helpers, handler interfaces, field tags, all RegisterValidation calls and every enumeration (validator case list vs exported constants). Theorems (decide over the whole table + generic spec lemmas for any registry): unique profile, names agree, send = committed protocol assignment and covers all features, receive = peer send, helpers = allow-list, tags resolved, no tag bound to two functions across both versions, exported constants accepted (partial for 1.6: three listed known findings), accepted sets = committed enumerations. The monitor replays all 1788 cells on the real endpoints/validator.",
+    note=BASE_NOTE + "The OCPP role assignment and enumerations are represented by committed snapshots (expected/roles.json, expected/enums.json). Known findings: blocking SendRequest of client roles has no allow-list; securefirmware.FirmwareStatus exports three constants its validator rejects.",
+    design="5/C18")
+
 NOT_YET = {}
 
 
